@@ -638,6 +638,10 @@ class Blockwise(ArrayExpr):
         else:
             # For base Blockwise with multiple inputs in args
             args = self.args
+            if any(ind is not None and not isinstance(arg, ArrayExpr) for arg, ind in toolz.partition(2, args)):
+                # An indexed BlockwiseDep (e.g. per-block offsets) describes the
+                # un-sliced block grid and cannot be sliced along with the arrays.
+                return None
             new_args = []
             for i in range(0, len(args), 2):
                 arg = args[i]
